@@ -25,6 +25,9 @@ def opsChannel (op : String) (j : Json) : Option (Except String Json) :=
         | _, .unsupported w => pure (Json.mkObj [("unsupported", Json.str w)])
         | _, _ => throw "inconsistent outcome"
       | k => throw s!"unknown channel kind {k}"
+  | "chan.validchars" => some do
+      let s ← getStr j "s"
+      pure (Json.bool (validChars s))
   | _ => none
 
 end Pyxv.Chan
